@@ -84,21 +84,21 @@ func (e *Engine) invoke(th *Thread, callee Value, args []Value, dst int, isDefer
 	if fn.Synthetic == "package initializer" && e.inInitOf != nil && fn.Pkg != e.inInitOf {
 		return // other packages are initialised lazily on first use
 	}
-	name := fn.String()
-	if r, ok := e.redirects[name]; ok {
-		e.stubsHit[name] = true
-		fn = r
-	} else if fn.Origin() != nil {
-		if r, ok := e.redirects[fn.Origin().String()]; ok {
-			e.stubsHit[fn.Origin().String()] = true
-			fn = r
-		}
+	rs := e.resolved[fn]
+	if rs == nil {
+		rs = e.resolveCallee(fn)
+		e.resolved[fn] = rs
 	}
-	if in, ok := e.intrinsics[fn.String()]; ok {
-		e.stubsHit[fn.String()] = true
+	name := rs.name
+	if rs.redirFrom != "" {
+		e.stubsHit[rs.redirFrom] = true
+	}
+	fn = rs.fn
+	if rs.in != nil {
+		e.stubsHit[rs.inName] = true
 		caller := th.top
 		e.curDst = dst
-		res := in(e, args, &callCtx{fn: fn, site: site, sig: fn.Signature})
+		res := rs.in(e, args, &callCtx{fn: fn, site: site, sig: fn.Signature})
 		if e.done {
 			return
 		}
@@ -106,20 +106,6 @@ func (e *Engine) invoke(th *Thread, callee Value, args []Value, dst int, isDefer
 			caller.regs[dst] = res
 		}
 		return
-	} else if fn.Origin() != nil {
-		if in, ok := e.intrinsics[fn.Origin().String()]; ok {
-			e.stubsHit[fn.Origin().String()] = true
-			caller := th.top
-			e.curDst = dst
-			res := in(e, args, &callCtx{fn: fn, site: site, sig: fn.Signature})
-			if e.done {
-				return
-			}
-			if dst >= 0 && th.top == caller && caller != nil {
-				caller.regs[dst] = res
-			}
-			return
-		}
 	}
 	if len(fn.Blocks) == 0 && fn.Pkg != nil {
 		// assembly kernels with a pure-Go twin (math/big: addVV -> addVV_g, ...)
@@ -281,7 +267,6 @@ func (e *Engine) unwind(th *Thread) {
 func (e *Engine) threadFinished(th *Thread) {
 	e.threadExited(th)
 }
-
 
 func (e *Engine) builtin(b *ssa.Builtin, args []Value, site ssa.Instruction) Value {
 	sig := b.Type().(*types.Signature)
@@ -518,4 +503,35 @@ func (e *Engine) arrSetFresh(n *Node, i int, v Value) {
 		return
 	}
 	e.storeNode(n.kids[i], v)
+}
+
+// calleeRes caches what a static callee resolves to (redirect, intrinsic).
+type calleeRes struct {
+	name      string
+	fn        *ssa.Function
+	redirFrom string
+	in        intrinsicFn
+	inName    string
+}
+
+func (e *Engine) resolveCallee(fn *ssa.Function) *calleeRes {
+	rs := &calleeRes{name: fn.String(), fn: fn}
+	if r, ok := e.redirects[rs.name]; ok {
+		rs.redirFrom = rs.name
+		rs.fn = r
+	} else if fn.Origin() != nil {
+		if r, ok := e.redirects[fn.Origin().String()]; ok {
+			rs.redirFrom = fn.Origin().String()
+			rs.fn = r
+		}
+	}
+	fn = rs.fn
+	if in, ok := e.intrinsics[fn.String()]; ok {
+		rs.in, rs.inName = in, fn.String()
+	} else if fn.Origin() != nil {
+		if in, ok := e.intrinsics[fn.Origin().String()]; ok {
+			rs.in, rs.inName = in, fn.Origin().String()
+		}
+	}
+	return rs
 }
